@@ -21,6 +21,9 @@ C10 line protocol.  One line = one whole history.
       r<task>        remove(task)          -> `-` | `KeyError`
       p / P<i>       pop() / pop(default #i)  -> `t<task>` | `IndexError` | `d<i>`
       k / K<i>       peek() / peek(default #i)   (i names which object was given as default)
+                     i >= 1000000: the object given as default IS (or equals) the task object i - 1000000
+                     (pop(None) on a queue holding the task None, ...); when that default comes back it is
+                     printed as what it is, `t<i - 1000000>`
       n              len(q)                -> `n<number>`
 Output: B: the results joined by `,`;  Q: `S=<results> H=<results>`.
 -/
@@ -97,10 +100,13 @@ def parseOp (tok : String) : Option (ROp Nat Dy) :=
   | 'n' => if rest = "" then some .len else none
   | _ => none
 
+/-- defaults numbered from `taskDefaultBase` on are task objects used as `default` -/
+def taskDefaultBase : Nat := 1000000
+
 def showOut : Out Nat → String
   | .none => "-"
   | .task t => s!"t{t}"
-  | .dflt i => s!"d{i}"
+  | .dflt i => if i < taskDefaultBase then s!"d{i}" else s!"t{i - taskDefaultBase}"
   | .len n => s!"n{n}"
   | .keyError => "KeyError"
   | .indexError => "IndexError"
